@@ -3,7 +3,9 @@ from .. import common as C
 from .. import mgr_props as MP
 
 PROP = "C06"
-DRIVERS = MP.DRIVERS
+# the client half of the dynamic-id sentence runs on the M2 life-cycle model, the option plumbing on Model/ClientEntry.lean
+DRIVERS = list(MP.DRIVERS) + ["drv_clientsub", "drv_cliententry"]
+ENTRY_TARGET = "Pyrtma.Props.C06Entry"       # audited next to Props/C06.lean (theorems of the client-side models)
 LEAN_TARGETS = ["Pyrtma.Props.C06"]
 LEVEL = "proof"
 MATCHERS = {}
@@ -20,10 +22,100 @@ def run(res: C.Result, deep: bool):
         res.failures.append(C.Failure(clause="options_honoured: " + f["what"], case={"client_entry": f},
                                       detail=f"{f['entry']}({f['options']}): {f['what']}",
                                       finding=C.match_finding(PROP, f["what"], f, MATCHERS)))
+    _client_life(res, deep)
+    _entry_model(res)
+    _entry_theorems(res)
+
+
+def _entry_theorems(res: C.Result):
+    """build and audit Props/C06Entry.lean (option plumbing + client identity theorems) like a Props/Cnn.lean"""
+    ok, log = C.lake_build([ENTRY_TARGET])
+    if not ok:
+        res.broken.append("lean-build: " + ", ".join(C.failed_modules(log)[:4] or [ENTRY_TARGET]))
+        return
+    aud = C.audit("C06Entry")
+    res.extra["entry_theorems"] = {t: a for t, a in aud.get("theorems", {}).items()}
+    res.extra["entry_theorems_discharged"] = sum(1 for a in aud.get("theorems", {}).values()
+                                                 if all(x in C.ALLOWED_AXIOMS for x in a))
+    for b in aud.get("bad", []):
+        res.broken.append("audit(C06Entry): " + b)
+    if not aud.get("theorems"):
+        res.broken.append("audit(C06Entry): no theorems found")
+
+
+def _entry_model(res: C.Result):
+    """the model side of `check_entry_points`: for every call shape x every combination of option values, the payload
+    Model/ClientEntry.lean computes from the *actuals as written* is compared with the frames the real Client wrote (CORR),
+    and the Spec `honoured` (each option equals the field of the same name) is evaluated on the real frames (PROP)."""
+    from .. import client_entry as E
+    cases = E.entry_model_cases()
+    lines = [l for c in cases for l in c["protocol"]]
+    out = C.parse_driver(C.run_driver("cliententry", lines))
+    shapes = {}
+    for c in cases:
+        r = out.get(c["id"])
+        if r is None:
+            raise C.MachineryError(f"driver gave no answer for entry case {c['id']}")
+        res.evaluations += 1
+        shapes[c["label"]] = shapes.get(c["label"], 0) + 1
+        jc = {"client_entry_model": {k: c[k] for k in ("label", "kind", "timecode", "options", "calls")},
+              "protocol": c["protocol"]}
+        for d in r["corr"]:
+            res.corr_diffs.append({"name": "corr:M2b/options", "diff": d[:600], "case": jc})
+        for v in r["props"].get(PROP, []):
+            if v.startswith("fail"):
+                res.failures.append(C.Failure(clause="options_honoured(model): " + v[5:], case=jc,
+                                              detail=f"{c['label']}({c['options']}): {v[5:]}",
+                                              finding=C.match_finding(PROP, v[5:], jc, MATCHERS)))
+    res.extra["entry_model_cases"] = shapes
+
+
+def _client_life(res: C.Result, deep: bool):
+    """"A client asking for id 0 ... learns it from the acknowledgement", client side, over several sessions of one Client
+    object: the real Client against the real manager, compared with Model/ClientLife.lean (identity projection) and judged
+    by the clauses `lifeC06` of Spec/ClientLife.lean (theorems: Props/C02.lean connect_requests_created_id,
+    reported_id_is_acked_id, dynamic_id_fresh)."""
+    from .. import client_corr as K
+    rng = C.rng_for(res.seed, "C06life" + ("deep" if deep else ""))
+    cases = [(f"l{i}", c) for i, c in enumerate(K.life_id_cases(rng, 1500 if deep else 300))]
+    lines = []
+    blks = {}
+    for cid, case in cases:
+        try:
+            blk = K.run_life_case(cid, case)
+        except C.MachineryError:
+            raise
+        except BaseException as e:  # noqa: BLE001
+            if isinstance(e, (KeyboardInterrupt, SystemExit)):
+                raise
+            res.failures.append(C.Failure(clause="harness_could_not_complete_case", case={"client_life": case},
+                                          detail=f"life-cycle case {cid}: {type(e).__name__}: {e}"))
+            continue
+        blks[cid] = blk
+        lines += blk
+    out = C.parse_driver(C.run_driver("clientsub", lines))
+    n_conn = 0
+    for cid, case in cases:
+        if cid not in blks:
+            continue
+        r = out.get(cid)
+        if r is None:
+            raise C.MachineryError(f"driver gave no answer for life-cycle case {cid}")
+        res.evaluations += 1
+        n_conn += sum(1 for l in blks[cid] if l.startswith("LPH ") and " R - " not in l)
+        jc = {"client_life": case, "protocol": blks[cid]}
+        for d in r["corr"]:
+            res.corr_diffs.append({"name": "corr:M2/life-cycle-ids", "diff": d[:1500], "case": jc})
+        for v in r["props"].get(PROP, []):
+            if v.startswith("fail"):
+                res.failures.append(C.Failure(clause="client_identity: " + v[5:].split()[0], case=jc, detail=v[5:],
+                                              finding=C.match_finding(PROP, v[5:], jc, MATCHERS)))
+    res.extra["client_life_cases"] = len(blks)
+    res.extra["client_life_handshakes"] = n_conn
 
 
 def replay(body):
-    case = body.get("case") or {}
+    case = body.get("case") or (body.get("first_corr_diff") or {}).get("case") or {}
     if "client_entry" in case:
         from .. import client_entry as E
         C.use_repo()
@@ -33,4 +125,24 @@ def replay(body):
         for f in bad:
             print(f)
         return 1 if bad else 0
+    if "client_entry_model" in case:
+        from .. import client_entry as E
+        C.use_repo()
+        want = case["client_entry_model"]
+        hit = [c for c in E.entry_model_cases() if all(c[k] == want[k] for k in ("label", "timecode", "options"))]
+        lines = [l for c in hit for l in c["protocol"]]
+        out = C.run_driver("cliententry", lines)
+        print("\n".join(lines))
+        print("\n".join(out))
+        return 1 if any("PROP C06 fail" in o or "CORR diff" in o for o in out) else 0
+    if "client_life" in case:
+        from .. import client_corr as K
+        C.use_repo()
+        c = case["client_life"]
+        c = dict(c, ops=[tuple(o) for o in c["ops"]], others=[tuple(o) for o in c.get("others", [])])
+        blk = K.run_life_case("replay", c)
+        out = C.run_driver("clientsub", blk)
+        print("\n".join(blk))
+        print("\n".join(out))
+        return 1 if any("PROP C06 fail" in o or "CORR diff" in o for o in out) else 0
     return MP.replay(PROP, body)
